@@ -9,7 +9,7 @@ from esrally.client import context as client_context
 from esrally.driver import driver
 
 from harness import execenv
-from harness.common import concrete
+from harness.common import accessor, concrete
 from harness.execenv import Client, Clock, StubRunner, drive, lazy_kind
 from symx import core
 from symx.core import fresh_bool, fresh_int, fresh_real, implies, observe, s_and, shadowed
@@ -298,7 +298,7 @@ def queue_full(sl):
     core.fresh_int("dummy", 0, 0)
 
 
-READS = [driver.AsyncExecutor.__call__, driver.execute_single, driver.Sampler.add, driver.Sampler.samples.fget, driver.Sample.__init__,
+READS = [driver.AsyncExecutor.__call__, driver.execute_single, driver.Sampler.add, accessor(driver.Sampler.samples), driver.Sample.__init__,
          client_context.RequestContextManager.__enter__, client_context.RequestContextManager.__exit__,
          client_context.RequestContextHolder.on_request_start, client_context.RequestContextHolder.on_request_end]
 STUBS = ["clock: time.perf_counter/time.time inside esrally.driver.driver and esrally.client.context (each read = previous + fresh d >= 0)",
